@@ -299,10 +299,15 @@ func c11Run(units []c11Unit, layout jg.Layout) engine.Result {
 }
 
 // full product over evidence sequences of the first test method
-func c11GenSeq(c *engine.C) engine.Case {
-	maxLen := 4
+func c11GenSeq(c *engine.C) engine.Case { return c11GenSeqN(c, 4, 5) }
+
+// c11GenSeqLong: longer sequences, explored within a deviation bound instead of as a full product.
+func c11GenSeqLong(c *engine.C) engine.Case { return c11GenSeqN(c, 7, 7) }
+
+func c11GenSeqN(c *engine.C, maxQ, maxT int) engine.Case {
+	maxLen := maxQ
 	if !c.Quick() {
-		maxLen = 6
+		maxLen = maxT
 	}
 	n := c.Choose(maxLen+1, "len")
 	var tokens []string
@@ -390,7 +395,7 @@ func init() {
 	engine.Register(&engine.Spec{
 		ID:    "C11",
 		Title: "Test-smell findings are exactly those evidenced in the test sources",
-		Rule: "X1: (a) full product of evidence sequences of length <=4 (quick) / <=6 (thorough) over 15 evidence tokens (assertTrue, assertEquals(a,b), assertEquals(a,a), println, printf, print, Thread.sleep, helper that asserts, helper that does not, verify, new, non-assert call with identical arguments) in one @Test method; " +
+		Rule: "X1: (a) full product of evidence sequences of length <=4 (quick) / <=5 (thorough), and all sequences of length <=7 within 2/3 deviations from the default token, over 15 evidence tokens (assertTrue, assertEquals(a,b), assertEquals(a,a), println, printf, print, Thread.sleep, helper that asserts, helper that does not, verify, new, non-assert call with identical arguments) in one @Test method; " +
 			"(b) deviation-bounded trees of 1..2 classes (location: *Test.java, *Tests.java, src/test/java, production) x 1..3 methods x annotation combination (@Test, @Ignore, both in either order, none, @Before) x bodies x assertion multiplicity 4/5/6 x 12 layouts. " +
 			"Non-trivial = at least one finding is required. Distinct = distinct source trees.",
 		Assumptions: []string{
@@ -400,6 +405,7 @@ func init() {
 		},
 		Sections: []engine.Section{
 			{Name: "evidence-sequences", KQuick: -1, KThor: -1, Gen: c11GenSeq},
+			{Name: "evidence-sequences-up-to-7", KQuick: 2, KThor: 3, Gen: c11GenSeqLong},
 			{Name: "trees", KQuick: 3, KThor: 4, Gen: c11GenTree},
 			{Name: "through-coca-tbs", KQuick: 1, KThor: 2, Gen: cliTbsGen},
 		},
